@@ -12,7 +12,7 @@ INFO = {
                         'variable and every order of the inputs; timed dense operators with windows over 3-4 sampling steps on 5-sample concrete grids; unsupported: operator x monitor-kind table (unbounded future online, prev/next/s_prev/s_next/rise/fall in dense time, '
                         'bounded future and bounded until in the dense online monitor; the same after pastify(), incl. until[0,0]), bare and nested under another operator; several online objects in one process with interleaved calls, a reset or a rejected object in between',
                'thorough': 'longer traces, unsupported constructs nested at depth 2, bounds variety'},
-    'outside': 'malformed data (wrong shapes, NaN, decreasing time-stamps); object-typed variables',
+    'outside': 'malformed data (wrong shapes, NaN, decreasing time-stamps); object-typed input variables (C06, C20 use them); an object-typed OUTPUT with a field is covered (out-field)',
     'assumptions': ['"no later than the first evaluation": the RTAMTException must come from parse(), pastify() or the first evaluate()/update()'],
     'explanation': 'data is symbolic, so "returns normally" holds on every path for all values; rejections are data-independent (single path), which the explorer confirms',
 }
@@ -55,6 +55,51 @@ def h_supported(f, N, kind, extra='none', order=0, grid=None):
             out2 = s.update(*[[v, []] for v in perm])
         env.observe('out', [list(p) for p in out])
         return ct.wellformed(A, [list(p) for p in out])
+    return body
+
+
+def h_outfield(f, kind, K=3):
+    """the output is a FIELD of a variable of a user type (`out.x = ...`, README: ROS messages): every evaluate()/update() returns normally,
+    the values are those of the plain formula and the field of the user's object carries the last result"""
+    f = T(f)
+    vs = sorted(variables(f))
+
+    def body(env):
+        A = env.A
+        from .. import objmsg
+        fam, k = kind.split('-')
+        s = (dt if fam == 'dt' else ct).KINDS[{'offline': 'offline', 'online': 'online', 'combinedoff': 'combined', 'combinedon': 'combined'}[k]]()
+        s.import_module('vf.objmsg', 'Msg')
+        for v in vs:
+            s.declare_var(v, 'float')
+        s.declare_var('out', 'Msg')
+        s.spec = 'out.x = ' + text(f)
+        s.parse()
+        res = []
+        if fam == 'dt':
+            w = dt.trace(env, vs, K)
+            exp = refsem.rho(A, f, w, K)
+            if k in ('offline', 'combinedoff'):
+                d = {'time': list(range(K))}
+                d.update({v: list(w[v]) for v in vs})
+                got = [p_[1] for p_ in s.evaluate(d)]
+            else:
+                got = [s.update(i, [(v, w[v][i]) for v in vs]) for i in range(K)]
+                res.append(('field-carries-last', A.eq(s.ast.var_object_dict['out'].x, got[-1])))
+            env.observe('out', got)
+            return res + dt.eq_list(A, 'value', got, exp)
+        sigs = {v: ct.signal(env, v, K + 1, 'zero', grid=list(range(K + 1))) for v in vs}
+        if k in ('offline', 'combinedoff'):
+            out = s.evaluate(*[[v, [list(p_) for p_ in sigs[v]]] for v in vs])
+            env.observe('out', [list(p_) for p_ in out])
+            return ct.wellformed(A, [list(p_) for p_ in out])
+        outs = []
+        for i in range(K):                                   # one segment per update
+            outs.append(s.update(*[[v, [list(sigs[v][i]), list(sigs[v][i + 1])] if i == 0 else [list(sigs[v][i + 1])]] for v in vs]))
+        env.observe('out', [[list(p_) for p_ in o] for o in outs])
+        for j, o in enumerate(outs):
+            res += ct.wellformed(A, [list(p_) for p_ in o], label='out%d' % j)
+        return res
     return body
 
 
@@ -245,6 +290,10 @@ def obligations(tier, rng):
         for kind in ('dt-online', 'dt-combined', 'ct-online', 'ct-combined'):
             for order in (['aba', 'abBa', 'aXa'] if quick else ['aba', 'abab', 'abBa', 'aXa', 'abXab', 'aBab']):
                 out.append(ob('C17', 'several', 'several/%s/%s|%s/%s' % (kind, text(fa), text(fb), order), fa=fa, fb=fb, kind=kind, order=order, bad=('always', X)))
+    # the output is a field of a user object (`out.x = ...`): every call returns, also the second and third update()
+    for f in [G1, ('once_t', G1, 0, 1), ('and', G1, ('historically', ('leq', Y, ('const', 2.0)))), ('sub', X, Y)]:
+        for kind in ('dt-offline', 'dt-online', 'dt-combinedon', 'ct-offline', 'ct-online', 'ct-combinedon', 'ct-combinedoff'):
+            out.append(ob('C17', 'outfield', 'out-field/%s/%s' % (kind, text(f)), f=f, kind=kind, K=3, max_paths=30000, wall=900))
     # input orders
     for order in range(6):
         out.append(ob('C17', 'supported', 'order/dt-online/%d' % order, f=('since', ('and', X, Y), Z), N=3, kind='dt-online', extra='none', order=order))
